@@ -23,7 +23,7 @@
    No well-formedness condition on the configuration is needed for C08. *)
 From Coq Require Import List ZArith NArith Bool.
 From PC.Base Require Import Assoc.
-From PC.Sup Require Import Model Monitors Sim RelCore Agreement RelC08 RelC08b RelC08c SpecC08 CallC08 RegC08 ExC08.
+From PC.Sup Require Import Model Monitors Sim RelCore Agreement RelC08 RelC08b RelC08c SpecC08 CallC08 RegC08 StageC08 ExC08.
 Import ListNotations.
 
 (* Every history of the model that did not go through the dup or the zombie window satisfies the
@@ -111,8 +111,8 @@ Theorem C08_start_iff_none : forall cs ord evs s, accept (init cs ord) evs = Som
   forall pre th ok post, evs = pre ++ (th, EApiReturn ok) :: post ->
   forall c n, get th (cv_of pre) = Some c -> c_op c = OpStart n ->
   (ok = true <-> c_found c = Some false /\ has n cs = true) /\
-  c_spawned c = (if ok then 1%nat else 0%nat) /\ (ok = false -> c_created c = 0%nat) /\ c_stops c = 0%nat.
-Proof. exact C08_start_call_lemma. Qed.
+  c_created c = (if ok then 1%nat else 0%nat) /\ c_spawned c = (if ok then 1%nat else 0%nat) /\ c_stops c = 0%nat.
+Proof. exact C08_start_exact_lemma. Qed.
 Print Assumptions C08_start_iff_none.
 
 (* RestartProcess(n) returns success iff n is configured, and then it has spawned EXACTLY ONE new
@@ -122,9 +122,9 @@ Print Assumptions C08_start_iff_none.
 Theorem C08_restart_one_new : forall cs ord evs s, accept (init cs ord) evs = Some s ->
   forall pre th ok post, evs = pre ++ (th, EApiReturn ok) :: post ->
   forall c n, get th (cv_of pre) = Some c -> c_op c = OpRestart n ->
-  ok = has n cs /\ c_spawned c = (if ok then 1%nat else 0%nat) /\ (ok = false -> c_created c = 0%nat) /\
+  ok = has n cs /\ c_created c = (if ok then 1%nat else 0%nat) /\ c_spawned c = (if ok then 1%nat else 0%nat) /\
   (c_found c <> Some true -> c_stops c = 0%nat).
-Proof. exact C08_restart_call_lemma. Qed.
+Proof. exact C08_restart_exact_lemma. Qed.
 Print Assumptions C08_restart_one_new.
 
 (* StopProcess(n) returns success iff its check found an instance; it never creates anything; a failing
@@ -135,6 +135,19 @@ Theorem C08_stop_call : forall cs ord evs s, accept (init cs ord) evs = Some s -
   (ok = true <-> c_found c = Some true) /\ c_spawned c = 0%nat /\ c_created c = 0%nat /\ (ok = false -> c_stops c = 0%nat).
 Proof. exact C08_stop_call_lemma. Qed.
 Print Assumptions C08_stop_call.
+
+(* EXACT counts (model guard of round 4: a thread creates one instance and spawns it before it creates
+   another): when StartProcess / RestartProcess returns, every instance it created has been spawned.
+   With it the four call theorems above/below say "exactly one new instance" on success and "no instance
+   created" on failure (c_created = c_spawned = if ok then 1 else 0).  Relation StageC08.K: at most one
+   stage entry below 3 per thread; created = spawned (+1 while that entry exists); a thread whose API pc
+   is ANone or AOk has no such entry. *)
+Theorem C08_created_eq_spawned : forall cs ord evs s, accept (init cs ord) evs = Some s ->
+  forall pre th ok post, evs = pre ++ (th, EApiReturn ok) :: post ->
+  forall c n, get th (cv_of pre) = Some c -> (c_op c = OpStart n \/ c_op c = OpRestart n) ->
+  c_created c = c_spawned c.
+Proof. exact C08_created_eq_spawned_lemma. Qed.
+Print Assumptions C08_created_eq_spawned.
 
 (* instances are created / spawned only by a thread inside Run, inside StartProcess(n) whose check found
    none running and which has not spawned yet, or inside RestartProcess(n) which has not spawned yet *)
@@ -179,8 +192,8 @@ Theorem C08_start_iff_none_registered : forall cs ord evs s, accept (init cs ord
   exists pre0 mid r,
     pre = pre0 ++ (th, ERegGet n r) :: mid /\ r = get n (rv_reg (rv_of pre0)) /\
     (ok = true <-> r = None /\ has n cs = true) /\
-    c_spawned c = (if ok then 1%nat else 0%nat) /\ (ok = false -> c_created c = 0%nat) /\ c_stops c = 0%nat.
-Proof. exact C08_start_registered_lemma. Qed.
+    c_created c = (if ok then 1%nat else 0%nat) /\ c_spawned c = (if ok then 1%nat else 0%nat) /\ c_stops c = 0%nat.
+Proof. exact C08_start_registered_exact_lemma. Qed.
 Print Assumptions C08_start_iff_none_registered.
 
 (* StopProcess(n) succeeds iff an instance was registered under n when it looked; it creates nothing;
@@ -202,8 +215,9 @@ Theorem C08_restart_registered : forall cs ord evs s, accept (init cs ord) evs =
   forall c n, get th (cv_of pre) = Some c -> c_op c = OpRestart n ->
   exists pre0 mid r,
     pre = pre0 ++ (th, ERegGet n r) :: mid /\ r = get n (rv_reg (rv_of pre0)) /\
-    ok = has n cs /\ c_spawned c = (if ok then 1%nat else 0%nat) /\ (ok = false -> c_created c = 0%nat /\ r = None).
-Proof. exact C08_restart_registered_lemma. Qed.
+    ok = has n cs /\ c_created c = (if ok then 1%nat else 0%nat) /\ c_spawned c = (if ok then 1%nat else 0%nat) /\
+    (ok = false -> r = None).
+Proof. exact C08_restart_registered_exact_lemma. Qed.
 Print Assumptions C08_restart_registered.
 
 (* which instance a call stops: a stop request (ENoRestart i) is made only inside StopProcess(n) or
